@@ -242,6 +242,10 @@ def failure_props(c):
     fr = c["frag"]
     if fr is None:
         return []
-    if c["kind"] in ("overflow", "bounds", "pre", "decreases") and fr.props_safety:
+    if c["kind"] in ("overflow", "bounds", "decreases") and fr.props_safety:
         return list(fr.props_safety)
+    if c["kind"] == "pre":
+        # a failed callee precondition is a safety obligation when the callee is code (index, slice) and a proof obligation
+        # when it is a lemma: charged to both groups
+        return sorted(set(fr.props_safety) | set(fr.props_all))
     return list(fr.props_all or fr.props_safety)
